@@ -2,7 +2,7 @@
 import json, os
 from kernel import *
 from sym import SymExec, show, deep_strip
-from sema import paths, conds_of
+from sema import paths, conds_of, truth
 from tables import string_table
 from gram import VERIF
 import C11
@@ -160,6 +160,28 @@ def run(prog, R):
     R.ob("C15.2-underscore", "Ident '_' => UNDERSCORE", und, iet.at, "")
     ident_rows = tk2sk.get("Ident", set())
     R.ob("C15.2-ident-classification", "Ident => from_keyword | from_scalar_type | IDENT", None in ident_rows or "IDENT" in ident_rows or len(ident_rows) >= 1, iet.at, f"{sorted(str(x) for x in ident_rows)}")
+    # identifiers end at the first non-identifier character; the only exception is an emoji glued to the name, which
+    # turns the whole run into InvalidIdent.  Any wider exception makes `name<non-ASCII whitespace>` or `name§` a
+    # lexical error / changes the classification of a keyword followed by such a character.
+    nfake = 0
+    for b in prog.by_crate["oq3_lexer"]:
+        if b.npath.endswith("fake_ident_or_unknown_prefix") or not any((b.callee_of(t) or "").endswith("Cursor::fake_ident_or_unknown_prefix") for _, t in b.calls()):
+            continue
+        badp = []
+        for p in SymExec(prog, b, max_visits=1).paths():
+            if not any(c[0].endswith("Cursor::fake_ident_or_unknown_prefix") for c in p.calls):
+                continue
+            nfake += 1
+            em = [truth(c) for t, c in conds_of(p) if isinstance(t, tuple) and t[0] in ("call", "pure") and t[1].endswith("is_emoji_char")]
+            asc = [truth(c) for t, c in conds_of(p) if isinstance(t, tuple) and t[0] in ("call", "pure") and t[1].endswith("::is_ascii")]
+            if not (em and all(em)) or (asc and any(asc)):
+                badp.append([(show(t)[:40], c) for t, c in conds_of(p)][-3:])
+        R.ob("C15.2-invalid-ident-only-for-emoji", b.npath.split("::")[-1], not badp, b.at, "every path into fake_ident_or_unknown_prefix has is_emoji_char(next) == true on a non-ASCII character" if not badp else
+             f"a path turns an identifier into InvalidIdent without the next character being an emoji: {badp[:2]}")
+    R.floor("paths into fake_ident_or_unknown_prefix", nfake, 2)
+    R.premises(prog, "C15.3-unit-table-premise", ["C10:C10.1-"], "a number directly followed by a unit is split into number + identifier by the same unit table that validation and the AST accessor use")
+    import scanners
+    scanners.exponent_markers(prog, R, "C15.3-exponent-markers")
     # ---- C15.3 sibling numeric arms
     if at:
         ps, _ = paths(prog, at.npath, 50000)
